@@ -122,6 +122,25 @@ def BodyStmt.lowerL : List BodyStmt → Nat → List Flow × Nat
 
 def FnDecl.flow (f : FnDecl) : List Flow := (BodyStmt.lowerL f.body 0).1
 
+mutual
+/-- the structured semantics *with finding F2 built in*: in an if/else body the statements that
+follow a nested `if` are never executed (the nested `if` jumps to the enclosing end label) -/
+def Flow.f2 : Flow → Flow
+  | .ite t e => .ite (f2Body t) (f2Body e)
+  | .loop b => .loop (f2List b)
+  | .ev k => .ev k
+  | .brk => .brk
+  | .cont => .cont
+  | .ret k => .ret k
+def f2List : List Flow → List Flow
+  | [] => []
+  | x :: rest => Flow.f2 x :: f2List rest
+def f2Body : List Flow → List Flow
+  | [] => []
+  | .ite t e :: _ => [.ite (f2Body t) (f2Body e)]
+  | x :: rest => Flow.f2 x :: f2Body rest
+end
+
 /-! ### Structured execution -/
 
 inductive Ctl | normal | brk | cont | returned | noOutcome | noFuel
@@ -221,9 +240,15 @@ def allOutcomes : Nat → List (List Bool)
   | n + 1 => (allOutcomes n).flatMap fun o => [true :: o, false :: o]
 
 /-- first disagreement over all outcome strings of length `k` -/
-def flowCheck (f : FnDecl) (stack : List Instr) (k fuel : Nat) : Option String :=
-  let flow := f.flow
+def flowCheckOn (flow : List Flow) (stack : List Instr) (k fuel : Nat) : Option String :=
   (allOutcomes k).findSome? fun o =>
     (agree flow stack o fuel).map fun why => s!"{why}:outcomes={o.map fun b => if b then 1 else 0}"
+
+def flowCheck (f : FnDecl) (stack : List Instr) (k fuel : Nat) : Option String :=
+  flowCheckOn f.flow stack k fuel
+
+/-- the same check against the F2 reading of the source -/
+def flowCheckF2 (f : FnDecl) (stack : List Instr) (k fuel : Nat) : Option String :=
+  flowCheckOn (f2List f.flow) stack k fuel
 
 end SemVerif
